@@ -465,12 +465,38 @@ fn eco_http_host(args: &[&str], v6: bool, host_name: Option<String>) -> String {
                 }
                 match peer {
                     EcoPeer::Body(body) => {
-                        let head = format!(
-                            "HTTP/1.1 200 OK\r\nContent-Type: application/json\r\nContent-Length: {}\r\nConnection: close\r\n\r\n",
-                            body.len()
-                        );
-                        let _ = stream.write_all(head.as_bytes());
-                        let _ = stream.write_all(&body);
+                        // the framing of the body follows from its length (the document is the same whichever way it
+                        // travels): announced length, chunked (chunks of 1-1500 bytes), or delimited by the close
+                        match body.len() % 3 {
+                            0 => {
+                                let head = format!(
+                                    "HTTP/1.1 200 OK\r\nContent-Type: application/json\r\nContent-Length: {}\r\nConnection: close\r\n\r\n",
+                                    body.len()
+                                );
+                                let _ = stream.write_all(head.as_bytes());
+                                let _ = stream.write_all(&body);
+                            }
+                            1 => {
+                                let _ = stream.write_all(
+                                    b"HTTP/1.1 200 OK\r\nContent-Type: application/json\r\nTransfer-Encoding: chunked\r\nConnection: close\r\n\r\n",
+                                );
+                                let mut at = 0;
+                                let mut size = 1 + body.len() % 7;
+                                while at < body.len() {
+                                    let end = (at + size).min(body.len());
+                                    let _ = stream.write_all(format!("{:x}\r\n", end - at).as_bytes());
+                                    let _ = stream.write_all(&body[at .. end]);
+                                    let _ = stream.write_all(b"\r\n");
+                                    at = end;
+                                    size = (size * 5 + 3) % 1500 + 1;
+                                }
+                                let _ = stream.write_all(b"0\r\n\r\n");
+                            }
+                            _ => {
+                                let _ = stream.write_all(b"HTTP/1.1 200 OK\r\nContent-Type: application/json\r\nConnection: close\r\n\r\n");
+                                let _ = stream.write_all(&body);
+                            }
+                        }
                         let _ = stream.flush();
                     }
                     _ => {
